@@ -41,8 +41,8 @@ var props = map[string]propDef{
 	"C30": {"exploration", 1400, 30000,
 		"Each case: a history of 1..6 generated programs on one Runner (assignments, options, traps, functions, aliases, cd/pushd, exit, failing and fatal commands, exec redirections, quiet background jobs left running), each ending normally, by exit, by a fatal handler error or by cancellation at a seeded step, then Reset and P; compared with P on a Runner made by New with the same options (stdout, stderr, returned error, Exited, Vars, Funcs, Dir, Params). One quarter of the cases instead compare Run(file) with one Run call per top-level statement stopping at Exited (programs without EXIT trap). Non-trivial: the history run finished; distinct = distinct (history+P, tape, faults) hashes.",
 		[]string{"external state (simulated files, consumed stdin) is kept out of the comparison by construction: histories never read the shared stdin nor write files P reads"}},
-	"C31": {"exploration", 2000, 40000,
-		"Each case: one of 82 non-terminating or forever-blocking programs (infinite loops in every syntactic position, blocked read/read -a/mapfile/select/cat on a silent stdin, wait and wait gN on sleeping/looping/blocked jobs, process substitutions never opened / opened but never read / read slowly, pipelines blocked on either side with tiny pipe capacity, here-document writers blocked on a full pipe, commands that ignore cancellation for up to 2 s) with a seeded prefix, crossed with the cancellation step: steps 0..23 are enumerated for every program, later steps drawn; the cancellation fires at that controller step or at the first idle instant before it. Oracle after the cancel event: Run returns within 2000 scheduling steps and 3 s of simulated time, never ends in a state where nothing is runnable and no timer is pending, and returns a non-nil error. Non-trivial: the cancellation fired; distinct = distinct (program, tape, cancel step) hashes.",
+	"C31": {"exploration", 3600, 60000,
+		"Each case: one of 93 listed non-terminating or forever-blocking programs, or a program composed from 26 never-ending cores and 44 status-consuming constructs nested up to two deep (listed shapes: infinite loops in every syntactic position, blocked read/read -a/mapfile/select/cat on a silent stdin, wait and wait gN on sleeping/looping/blocked jobs, process substitutions never opened / opened but never read / read slowly, pipelines blocked on either side with tiny pipe capacity, here-document writers blocked on a full pipe, commands that ignore cancellation for up to 2 s) with a seeded prefix, crossed with the cancellation step: steps 0..23 are enumerated for every listed program, steps of composed programs and later steps are drawn; a third of the cases run 1-2 warm-up Run calls with contexts of their own on the same Runner first, an eighth run statement by statement; the cancellation fires at that controller step or at the first idle instant before it. Oracle after the cancel event: Run returns within 2000 scheduling steps and 3 s of simulated time, never ends in a state where nothing is runnable and no timer is pending, and returns a non-nil error. Non-trivial: the cancellation fired; distinct = distinct (program, tape, cancel step) hashes.",
 		[]string{"simulated commands honour the context at once except 'stubborn d' (d <= 2 s), which stands for a child that ignores SIGINT until the kill timeout", "the real DefaultExecHandler signalling path is outside the simulation"}},
 	"C32": {"exploration", 2000, 50000,
 		"Each case is one of: (race) a generated parent state and statement lists S and T touching the same names, S in a concurrent construct (background job, background subshell, >( ), both sides of | and |&, command substitution inside a job, <( ) inside a job, two jobs, a function run in a job) and T in the parent, under a seeded schedule with I/O faults; (subshell-api) Runner.Subshell() copy and parent run generated programs concurrently; (wait) 1..5 jobs with distinct exit codes and simulated durations, then wait gJ; echo $? in seeded order. Oracle: the Go race detector (scheduler hand-offs hidden from it, so serialisation adds no happens-before edges) reports nothing during the run, no panic, and the wait statuses printed are the jobs' codes, bare wait gives 0, an unknown job id gives 1. Non-trivial: at least one context switch between live goroutines; distinct = distinct (program, tape, faults) hashes.",
@@ -211,9 +211,18 @@ func runIndexes(prop, tier string, root uint64, indexes []int, nw int, timeout t
 				c := res.crashed
 				c.Class, c.Key, c.Detail = cls, cls+":"+c.Kind, kit.Clip(crashSummary(res.stderr), 1500)
 				v := &worldb.Verdict{Idx: c.Idx, OK: false, Class: c.Class, Key: c.Key, Detail: c.Detail, Kind: c.Kind, Case: c, NonTrivial: true}
-				mu.Lock()
-				crashes = append(crashes, v)
-				mu.Unlock()
+				if cls == "crash-in-interpreter" && soloPanics(c, timeout) {
+					// the same statements crash the interpreter when run plainly
+					// in sequence: not caused by what the property is about
+					v = &worldb.Verdict{Idx: c.Idx, OK: true, Kind: c.Kind, Skipped: "interpreter panic that also happens when the statements run plainly in sequence (outside the claimed properties): " + kit.Clip(crashSummary(res.stderr), 160)}
+					mu.Lock()
+					all = append(all, v)
+					mu.Unlock()
+				} else {
+					mu.Lock()
+					crashes = append(crashes, v)
+					mu.Unlock()
+				}
 				// continue after the crashed index
 				pos := -1
 				for i, idx := range part {
@@ -231,6 +240,24 @@ func runIndexes(prop, tier string, root uint64, indexes []int, nw int, timeout t
 	wg.Wait()
 	sort.Slice(all, func(i, j int) bool { return all[i].Idx < all[j].Idx })
 	return
+}
+
+// soloPanics re-runs a crashed case's statements plainly in sequence, in a
+// fresh worker, and reports whether the interpreter panics there too.
+func soloPanics(c *worldb.Case, timeout time.Duration) bool {
+	sc := *c
+	sc.Solo = true
+	res := runWorker(&worldb.Job{Property: c.Property, Cases: []*worldb.Case{&sc}}, 1, timeout)
+	if res.crashed != nil {
+		_, inSh := classifyCrash(res.stderr)
+		return inSh
+	}
+	for _, v := range res.verdicts {
+		if v.Class == "solo-panic" {
+			return true
+		}
+	}
+	return false
 }
 
 func tailOf(s string, n int) string {
